@@ -20,6 +20,7 @@ package verifier
 
 import (
 	crypt "crypto"
+	"encoding/json"
 	"errors"
 	"fmt"
 	"strings"
@@ -47,7 +48,21 @@ var ExtractProtectedHeaders = crypto.ExtractProtectedHeaders
 func (sv *signatureVerifier) VerifySignature(credentialToVerify vc.VerifiableCredential, validateAt *time.Time) error {
 	switch credentialToVerify.Format() {
 	case vc.JSONLDCredentialProofFormat:
-		return sv.jsonldProof(credentialToVerify, credentialToVerify.Issuer.String(), validateAt)
+		if err := sv.jsonldProof(credentialToVerify, credentialToVerify.Issuer.String(), validateAt); err != nil {
+			return err
+		}
+		// The proof covers the canonicalized credential, and canonicalization silently drops every member the credential's
+		// JSON-LD context(s) do not define. Such members are not protected by the proof, but they are read by whoever decodes
+		// credentialSubject or credentialStatus afterwards (Go matches member names case-insensitively, the last one wins:
+		// "statuslistindex" next to "statusListIndex"). A credential with undefined members is not what the issuer signed.
+		credentialJSON, err := json.Marshal(credentialToVerify)
+		if err != nil {
+			return newVerificationError("invalid LD-JSON document: %w", err)
+		}
+		if err = jsonld.AllFieldsDefined(sv.jsonldManager.DocumentLoader(), credentialJSON); err != nil {
+			return newVerificationError("credential contains members that are not covered by the proof: %w", err)
+		}
+		return nil
 	case vc.JWTCredentialProofFormat:
 		return sv.jwtSignature(credentialToVerify.Raw(), credentialToVerify.Issuer.String(), validateAt)
 	default:
